@@ -119,7 +119,7 @@ func check(s Spec) h.Result {
 var prop = h.Prop[Spec]{
 	ID: "C07", Name: "optimize",
 	Gen: func(t *rapid.T) Spec {
-		s := Spec{Pair: h.GenPair(t, h.GenOpts{Tiny: true, PathOps: rapid.Bool().Draw(t, "pathops")}), Comp: genComp(t, "in")}
+		s := Spec{Pair: h.GenPair(t, h.GenOpts{Tiny: true, PathOps: rapid.Bool().Draw(t, "pathops"), ConstCap: 16384}), Comp: genComp(t, "in")}
 		s.Opt = h.OptParams{
 			Partitions:  rapid.IntRange(0, 16).Draw(t, "partitions"),
 			Concurrency: rapid.IntRange(-1, 4).Draw(t, "concurrency"),
